@@ -20,12 +20,14 @@ class Interp(ExprMixin, CallMixin, StmtMixin):
         self.ctx = ctx
         self.check_index = contract.safety
         self.check_div = False
+        self.float_div = contract.options.get('float_div', 'real')
         self.slices_allocate = False
         self.module_consts = {}
         self.empty_list_types = {}
         self.ghost_at = {}
         self.loop_ord = {}
         self.cur_class = None
+        self.pending_list_type = None
 
 
 class FunctionResult:
@@ -124,6 +126,8 @@ def verify_function(reg, frontend, con, prop=None):
             for g, ty in con.ghost_params.items():
                 st.env[g] = it.fresh_value(ty, g, st)
             st.entry = st.snapshot()
+            for a in con.axioms:
+                st.assume(axiom_formula(it, reg.axioms[a]))
             for r in con.requires:
                 st.assume(it.truthy(it.spec_text(r, st), st))
             st.entry = Snapshot(st.env, st.heap)
@@ -183,7 +187,40 @@ def check_post(it, st, con, result):
         ctx.oblige(st, "post", g, line=line, text=e, tag="#%d" % i)
 
 
-def lemma_obligations(reg, frontend, lem):
+def axiom_formula(it, ax):
+    """forall heap arrays, vars. body"""
+    ctx = it.ctx
+    saved = ctx.initial
+    ctx.initial = {}
+    try:
+        tmp = State(ctx)
+        tmp.entry = tmp.snapshot()
+        consts = []
+        for n, t in ax.vars:
+            c = z3.Const("ax_%s_%s" % (ax.name, n), sort_of(t))
+            consts.append(c)
+            tmp.bound[n] = SV(t, c)
+        body = it.truthy(it.spec_text(ax.body, tmp), tmp)
+        heap_consts = [v for k, v in ctx.initial.items()]
+    finally:
+        ctx.initial = saved
+    ctx.assumed.add("axiom:" + ax.name)
+    return z3.ForAll(heap_consts + consts, body)
+
+
+def axiom_instance_obligations(reg, frontend, ax, inst):
+    import re
+    from .spec import Lemma
+    body = ax.body
+    for fun, mac in inst.items():
+        body = re.sub(r"\b%s\(" % re.escape(fun), mac + "(", body)
+    lem = Lemma("%s[%s]" % (ax.name, ",".join("%s:=%s" % kv for kv in inst.items())),
+                vars=[(n, repr(t)) for n, t in ax.vars], hyps=[], goal=body, props=ax.props)
+    obs = lemma_obligations(reg, frontend, lem, kind="refines")
+    return obs
+
+
+def lemma_obligations(reg, frontend, lem, kind="lemma"):
     """a lemma is a closed formula: forall vars. hyps -> goal, proved by the SMT back end over the same spec language"""
     from .spec import Contract
     dummy = Contract("lemma:" + lem.name, params=[])
@@ -194,10 +231,12 @@ def lemma_obligations(reg, frontend, lem):
     for n, t in lem.vars:
         st.env[n] = it.fresh_value(t, n, st)
     st.entry = st.snapshot()
+    for a in lem.axioms:
+        st.assume(axiom_formula(it, reg.axioms[a]))
     for u in lem.uses:
         it.use_lemma(u, st)
     for h in lem.hyps:
         st.assume(it.truthy(it.spec_text(h, st), st))
     for i, g in enumerate(lem.goal):
-        ctx.oblige(st, "lemma", it.truthy(it.spec_text(g, st), st), line=None, text=g, tag="#%d" % i)
+        ctx.oblige(st, kind, it.truthy(it.spec_text(g, st), st), line=None, text=g, tag="#%d" % i)
     return ctx.obligations
